@@ -360,7 +360,10 @@ def d6(cx: Cx, ob: Ob) -> None:
     for c in calls[:1]:
         kw = dict(c[3])
         for p in ("converter", "uris", "delimiters"):
-            if kw.get(p) != ("param", p):
+            v_ = kw.get(p)
+            while op(v_) == "call" and v_[1] in (("builtin", "list"), ("builtin", "tuple")) and len(v_[2]) == 1 and not v_[3]:
+                v_ = v_[2][0]  # a materialised copy: the same elements in the same order
+            if v_ != ("param", p):
                 ob.violate(fn.qualname, fn.where, f"discover does not forward `{p}` unchanged to the helper", detail=f"forward:{p}")
     if not calls:
         ob.undecide("discover does not call _get_uri_prefix_to_luids")
